@@ -121,7 +121,7 @@ theorem rSel_calls_ok (env : Env) (node : Nat) (ty : String) (d : Nat) (res : Li
             intro n t d' c hc
             split at hc
             · simp at hc
-            · exact rSels_calls_ok env n t d' [] sels c hc
+            · exact rSels_calls_ok env n (staticTy env fd.type t) d' [] sels c hc
         · simp [rSel, h1, h2, hfd, h3, h4] at hc
       · simp [rSel, h1, h2, hfd, h3] at hc
   | .inline cond dirs sels sp => by
@@ -325,13 +325,13 @@ theorem C06_group_members (env : Env) (node : Nat) (ty : String) (d : Nat) (res 
   intro key
   have hnb := complete_noBare env.schema env.graph
     (fun n t d' => if sels.isEmpty then ((.obj [] : J), ({ errs := [⟨[], .noSelection⟩] } : Acc))
-      else let r := rSels env n t d' [] sels; (.obj r.1, r.2))
+      else let r := rSels env n (staticTy env fd.type t) d' [] sels; (.obj r.1, r.2))
     (by
       intro n t d' e he hp
       simp only at he
       split at he
       · simp at he; simp [he]
-      · exact rSels_noBare env n t d' [] sels e he hp)
+      · exact rSels_noBare env n (staticTy env fd.type t) d' [] sels e he hp)
     fd.type (fetch env.graph node name).val d
   simp only [rSel, h1, h2, hfd, hargs, Bool.false_eq_true, if_false, List.isEmpty_nil, Bool.not_true,
     List.filter_append, List.length_append]
